@@ -14,6 +14,8 @@ import (
 type RegistryIndices []common.ValidatorIndex
 
 func (p *RegistryIndices) Deserialize(spec *common.Spec, dr *codec.DecodingReader) error {
+	// decode into a recycled object: drop what it holds (dr.List appends)
+	*p = (*p)[:0]
 	return dr.List(func() codec.Deserializable {
 		i := len(*p)
 		*p = append(*p, common.ValidatorIndex(0))
@@ -44,6 +46,8 @@ func (p RegistryIndices) HashTreeRoot(spec *common.Spec, hFn tree.HashFn) common
 type ValidatorRegistry []*Validator
 
 func (a *ValidatorRegistry) Deserialize(spec *common.Spec, dr *codec.DecodingReader) error {
+	// decode into a recycled object: drop what it holds (dr.List appends)
+	*a = (*a)[:0]
 	return dr.List(func() codec.Deserializable {
 		i := len(*a)
 		*a = append(*a, &Validator{})
